@@ -355,6 +355,15 @@ def run(ck, P):
         det.append((fld, [(x.fn.name, S(x.rhs)) for x in ws]))
         okw = okw and len(ws) == 1 and ws[0].fn.name == "m_thpool_add" and S(ws[0].rhs) == add.params[par]["name"]
     ck.ob("C06.4-HANDOFF", add.site("fn/arg from parameters"), okw, "stores: %s" % det)
+    # a refused submission leaves nothing behind: the lazy thread creation can fail, and its failure is returned to the caller, so the
+    # task must not be in the queue yet (a worker would run a task whose submission was reported as failed)
+    enq = [e for e in add.calls("m_queue_enqueue") if S(e.args[0]).endswith("->tasks")]
+    ck.need(enq, "m_thpool_add no longer enqueues into the task queue")
+    late = [(a, e) for a in add.calls("add_threads") for e in enq if rules.may_precede(add, e, a)]
+    ck.ob("C06.4-HANDOFF", add.site("enqueue after the fallible steps"), not late,
+          "the task is queued (line %s) after the lazy thread creation that can refuse the submission%s"
+          % ([e.line for e in enq], "" if not late else ": add_threads at line %d runs after the enqueue at line %d, and its failure is "
+             "returned although the task stays queued and will run" % (late[0][0].line, late[0][1].line)))
     fr = fns["m_thpool_free"]
     ck.ob("C06.4-HANDOFF", fr.site("pending queue destroyed"), any(S(e.args[0]) == "&p->tasks" for e in fr.calls("m_queue_free")),
           "m_thpool_free destroys the pending queue", nontrivial=False)
